@@ -422,7 +422,7 @@ func c06Headers(c *core.Ctx, rule string, m *serverModel) {
 	// summary of the shared helper: every nil return is preceded by Set(Location) and Set(Docker-Content-Digest)
 	var helper *ssa.Function
 	for _, fn := range c.P.ModuleFunctions("ociserver") {
-		if fn.Name() == "setLocationHeader" {
+		if fnName(fn) == "setLocationHeader" {
 			helper = fn
 		}
 	}
@@ -556,7 +556,7 @@ func c06StatusFollowsCode(c *core.Ctx, rule string) {
 			if ex, ok := cd.V.(*ssa.Extract); ok && ex.Index == 1 && !cd.Pos {
 				if lk, ok := ex.Tuple.(*ssa.Lookup); ok {
 					if u, ok := lk.X.(*ssa.UnOp); ok {
-						if g, ok := u.X.(*ssa.Global); ok && g.Name() == "errorStatuses" {
+						if g, ok := u.X.(*ssa.Global); ok && globalName(g) == "errorStatuses" {
 							miss = true
 						}
 					}
@@ -572,7 +572,7 @@ func c06StatusFollowsCode(c *core.Ctx, rule string) {
 	// parse-error switch covers every sentinel of ocirequest
 	var sw *ssa.Function
 	for _, fn := range c.P.ModuleFunctions("ociserver") {
-		if fn.Name() == "handlerErrorForRequestParseError" {
+		if fnName(fn) == "handlerErrorForRequestParseError" {
 			sw = fn
 		}
 	}
